@@ -21,11 +21,11 @@ def parseEnd : String → Option Spec.C08.EndClass
   | "closed" => some .closed | "blocked" => some .blocked | "spinning" => some .spinning | "open" => some .open_ | _ => none
 
 inductive Mode where
-  | drain | stall | ext | engine
+  | drain | stall | ext | tcan | engine
   deriving DecidableEq, Repr
 
 def parseMode : String → Option Mode
-  | "" => some .drain | "drain" => some .drain | "stall" => some .stall | "ext" => some .ext | "engine" => some .engine
+  | "" => some .drain | "drain" => some .drain | "stall" => some .stall | "ext" => some .ext | "tcan" => some .tcan | "engine" => some .engine
   | _ => none
 
 structure Line where
@@ -45,8 +45,9 @@ def parseLine (kv : List (String × String)) : Option Line := do
   let mode ← parseMode (getS kv "mode")
   let cons := (getN? kv "cons").getD 1
   let shots := (getN? kv "shots").getD 0
+  let pad := (getN? kv "pad").getD 0
   pure { inp := { kind, preload := getS kv "preload" == "1", b := ⟨limit, passes⟩, cancelAt := if cap = 0 then none else some cap },
-         n, cell := { limit, passes, n, cap }, mode, cons, shots }
+         n, cell := { limit, passes, n, cap, pad }, mode, cons, shots }
 
 def classOf : RunRes → Spec.C08.RunClass
   | .nil => .nil | .canceled => .canceled | .errLimit => .limit | .errPasses => .passes
@@ -72,7 +73,7 @@ def b01 (b : Bool) : String := if b then "1" else "0"
 noticed the cancellation: `nil` is then as good as the model's `canceled` (echoed). -/
 def showDrain (l : Line) (o : Spec.C08.Obs) (ops implEnd implRun : String) (fired : Option String := none) : String :=
   let e := if o.run == .noreturn then implEnd else endName o.end_
-  let run := if o.cut ∧ Spec.C08.bounded l.cell ∧ implRun == "nil" then "nil" else runClassName o.run
+  let run := if o.cut ∧ Spec.C08.bounded l.cell ∧ implRun == "nil" ∧ o.run == .canceled then "nil" else runClassName o.run
   let f := match fired with | some f => s!" fired={f}" | none => ""
   s!"delivered={o.delivered} cut={b01 o.cut}{f} run={run} end={e} seq={seqField l.cons (!o.cut)} ops={ops}"
 
@@ -128,7 +129,7 @@ def handle : Handler := fun input impl =>
         match parseObs ikv with
         | none => (modelDrain l [], s!"fail:crash:{impl.take 120}")
         | some o => (modelDrain l ikv, Spec.C08.judge l.cell o)
-      | .ext =>
+      | .ext | .tcan =>
         if l.cell.cap = 0 ∧ !Spec.C08.bounded l.cell then ("-", "skip:unbounded-cell-without-cap") else
         match parseObs ikv with
         | none => (modelDrain l [] (some "0"), s!"fail:crash:{impl.take 120}")
